@@ -13,6 +13,7 @@ TRUSTED_BASE = [
     "OCaml driver ocaml/driver.ml (hex parsing, int<->N conversion, comparison and printing) and the Rust harness /verif/harness (generators, instrumented sinks/sources, catch_unwind)",
 ]
 
+WPROG = "progress of the writer model (that it FINISHES, without panic or error, on every strictly ascending input with entries below u32::MAX and a total codec) is a hypothesis of the end-to-end theorems, validated on every generated file by byte-exact comparison with the implementation"
 PROPS = {
     "C14": {
         "prop_file": "props/C14.v",
@@ -44,7 +45,6 @@ PROPS.update({
     },
 })
 
-WPROG = "progress of the writer model (that it FINISHES, without panic or error, on every strictly ascending input with entries below u32::MAX and a total codec) is a hypothesis of the end-to-end theorems, validated on every generated file by byte-exact comparison with the implementation"
 FILE_RULE = "writer configurations: codec in all six (level 0..u32::MAX, zstd <= 19), block size through the public clamped setter {0,1,1023,1024,1025,2048,8192,...} and 16..256 through the unclamped hook, index interval {default,1,2,3,8,random<=64}, index levels {0,1,2,3,4,7,254,255} (+ sweep), 0..400 entries with keys over a 4-symbol alphabet incl. the empty key, 0xFF runs, boundary lengths 127/128/16383/16384, values from empty to larger than a block; non-trivial = file with more blocks than index levels + 2, distinct by file bytes"
 PROPS.update({
     "C01": {
